@@ -8,6 +8,7 @@ included) and all relay factors.
 -/
 import SerfProofs.Lemmas.Relay
 import SerfModel.Gen.RelayGuard
+import SerfModel.Gen.RelayFilter
 namespace SerfProofs.C35
 open SerfModel SerfModel.Relay SerfProofs.Relay
 
@@ -89,6 +90,40 @@ theorem C35_relay_gen (k : Nat) (ms : List Member) (self : String) (picks : List
   unfold relayTargetsG relayTargets
   rw [C35_guard_gen.2]
   simp [C35_guard_gen.1]
+
+/-- **The candidate filter as it is in the source** (regenerated table of atoms): a member is rejected
+exactly when it is not alive, or its ProtocolMax is below 5, or it is the node itself — for every member
+and every node name; and `StatusAlive` is the constant 1 the model uses. -/
+theorem C35_filter_gen (self : String) (m : Member) :
+    rejectedBy Gen.RelayFilter.rejectAtoms self m = ineligible self m := by
+  simp [rejectedBy, Gen.RelayFilter.rejectAtoms, FilterAtom.holds, ineligible, statusAlive, Bool.or_assoc]
+
+theorem C35_status_consts :
+    Gen.RelayFilter.statusConsts =
+      [("StatusNone", 0), ("StatusAlive", statusAlive), ("StatusLeaving", 2), ("StatusLeft", 3), ("StatusFailed", 4)] := by
+  decide
+
+/-- **The probe loop as it is in the source**: `3·n` probes, stops at `k` selected, filter before the
+duplicate test, duplicates recognised by `Name` — the loop `selectLoop` transcribes; and the model's
+`kRandomMembers` is the generated budget's. -/
+theorem C35_select_shape_gen :
+    Gen.RelayFilter.selectShape.asModelled = true ∧
+    (∀ k ms filt picks, kRandomMembersG Gen.RelayFilter.selectShape.probeFactor k ms filt picks = kRandomMembers k ms filt picks) :=
+  ⟨by decide, fun _ _ _ _ => rfl⟩
+
+/-- The selection clauses do not depend on the probe budget: they hold for every factor. -/
+theorem C35_select_any_budget (factor k : Nat) (ms : List Member) (filt : Member → Bool) (picks : List Nat) :
+    (kRandomMembersG factor k ms filt picks).length ≤ k ∧
+    ((kRandomMembersG factor k ms filt picks).map (·.name)).Nodup ∧
+    ∀ m ∈ kRandomMembersG factor k ms filt picks, m ∈ ms ∧ filt m = false :=
+  selectLoop_inv k ms filt (factor * ms.length) picks [] (inv_nil k ms filt)
+
+/-- Regression witness: a filter that only rejects failed and left members (the table
+`[.statusEq 4, .statusEq 3, .protoMaxLt 5, .nameIsSelf]`) lets a LEAVING member be chosen as relay. -/
+theorem C35_filter_gone_only_counterexample :
+    (kRandomMembers 1 [⟨"self", 1, 5, 0⟩, ⟨"a", 2, 5, 1⟩]
+      (rejectedBy [.statusEq 4, .statusEq 3, .protoMaxLt 5, .nameIsSelf] "self") [1]).map (·.status) = [2] := by
+  decide
 
 /-- Regression witness: with the addition carried out in uint8 the gate is open at relay factor 255
 (two members known, one relay chosen). -/
